@@ -47,7 +47,10 @@ def cli_keys(mod_prefix, names, **kw):
         if "char" in n:
             # typed text: the library's debug_assert on chars().count() is compiled out for these
             d["nodebug"] = True
-        out.append(H("%s::%s" % (mod_prefix, n), bounds=CLI_BOUNDS, **d))
+        b = CLI_BOUNDS
+        if "vp_n4" in d.get("cfg", ()):
+            b = b.replace("N=3, history buffer H=3", "N=4, history buffer H=4")
+        out.append(H("%s::%s" % (mod_prefix, n), bounds=b, **d))
     return out
 
 
@@ -284,6 +287,8 @@ PROPS["C01"] = {
     ] + enter_set("cli_steps::key_enter", ["C01"]) + [
     ] + routing_set(["C01", "C12"]) + [
         H("cli_steps::api_build", tags=["C01"], bounds="CliBuilder::build() with each of the three prompts"),
+    ] + cli_keys("cli_steps", CHEAP, tags=["C01"], tier="thorough", cfg=["vp_n4", "vp_h4"], timeout=3000, mem=8) + [
+    ] + [H("cli_steps::key_enter_v%d" % v, tags=["C01"], tier="thorough", cfg=["vp_n4", "vp_h0"], bounds="N=4: Enter from ANY editor state with a line of exactly %d bytes, history buffer of size 0 (help-shaped lines `help`, `x -h` exist at this size)" % v, timeout=3400, mem=14) for v in range(0, 5)] + [
         H("cli_glue::glue_ascii_v1", tags=["C01"], features=[], cfg=["vp_h0"], nodebug=True, bounds="process_byte(b) vs accept(b) + per-key entry: ANY editor state with a 1-byte line (N=3), ANY decoder state, every byte < 0x80; optional features off", timeout=2400, mem=8),
         H("cli_glue::glue_ascii", tier="thorough", optional=True, tags=["C01"], features=[], cfg=["vp_h0"], nodebug=True, bounds="process_byte(b) vs accept(b) + per-key entry: ANY editor state (N=3), ANY decoder state, every byte < 0x80; optional features off (process_byte has no cfg gate - checked textually)", timeout=2400, mem=12),
         H("cli_steps::key_enter_twin", kind="twin", cfg=["vp_h0"], mem=6),
